@@ -59,14 +59,15 @@ func (l *c01Lit) text() string {
 		return l.ftxt
 	case 'D':
 		t := time.Unix(l.sec, l.ns).In(c01Zones[l.zone%len(c01Zones)])
-		return "datetime(" + t.Format(time.RFC3339Nano) + ")"
+		// `datetime(` is a lower-case literal of the grammar; the T and the Z of the RFC 3339 text are free
+		return "datetime(" + c01Kw(t.Format(time.RFC3339Nano), "lit/D") + ")"
 	case 'B':
 		if l.b {
-			return "true"
+			return c01Kw("true", "lit/B")
 		}
-		return "false"
+		return c01Kw("false", "lit/B")
 	default:
-		return "null"
+		return c01Kw("null", "lit/N")
 	}
 }
 
@@ -142,13 +143,13 @@ func (l *c01Lhs) text() string {
 	case "sym":
 		return l.name
 	case "all":
-		return "allOf(" + l.name + ")"
+		return c01Kw("allOf", "lhs/"+l.name) + "(" + l.name + ")"
 	case "any":
-		return "anyOf(" + l.name + ")"
+		return c01Kw("anyOf", "lhs/"+l.name) + "(" + l.name + ")"
 	case "cnt":
-		return "count(" + l.name + ")"
+		return c01Kw("count", "lhs/"+l.name) + "(" + l.name + ")"
 	default:
-		return "count(from " + l.name + " where " + l.sub.text() + ")"
+		return c01Kw("count", "lhs/"+l.name) + "(" + c01Kw("from", "lhs/"+l.name) + " " + l.name + " " + c01Kw("where", "lhs/"+l.name) + " " + l.sub.text() + ")"
 	}
 }
 
@@ -169,43 +170,43 @@ func (f *c01Filter) text() string {
 		return f.name
 	case "bin":
 		sep := " "
-		return f.lhs.text() + sep + c01OpText[f.op] + sep + f.lit.text()
+		return f.lhs.text() + sep + c01Kw(c01OpText[f.op], f.kwSig()) + sep + f.lit.text()
 	case "in":
 		var parts []string
 		for _, a := range f.arr {
 			parts = append(parts, a.text())
 		}
-		op := " in "
+		op := "in"
 		if f.neg {
-			op = " not in "
+			op = "not in"
 		}
-		return f.lhs.text() + op + "[" + strings.Join(parts, ", ") + "]"
+		return f.lhs.text() + " " + c01Kw(op, f.kwSig()) + " [" + strings.Join(parts, ", ") + "]"
 	case "btw":
-		op := " between "
+		op := "between"
 		if f.neg {
-			op = " not between "
+			op = "not between"
 		}
-		return f.lhs.text() + op + f.lo.text() + " and " + f.hi.text()
+		return f.lhs.text() + " " + c01Kw(op, f.kwSig()) + " " + f.lo.text() + " " + c01Kw("and", f.kwSig()) + " " + f.hi.text()
 	case "empty":
-		return "isEmpty(" + f.name + ")"
+		return c01Kw("isEmpty", f.kwSig()) + "(" + f.name + ")"
 	case "emptyq":
-		return "isEmpty(from " + f.name + " where " + f.sub.text() + ")"
+		return c01Kw("isEmpty", f.kwSig()) + "(" + c01Kw("from", f.kwSig()) + " " + f.name + " " + c01Kw("where", f.kwSig()) + " " + f.sub.text() + ")"
 	case "bc":
 		if f.absent {
 			return ""
 		}
 		if f.b {
-			return "true"
+			return c01Kw("true", "bc")
 		}
-		return "false"
+		return c01Kw("false", "bc")
 	case "bs":
 		return f.name
 	case "not":
-		return "not (" + f.a.text() + ")"
+		return c01Kw("not", "not/"+f.a.kwSig()) + " (" + f.a.text() + ")"
 	case "and":
-		return "(" + f.a.text() + ") and (" + f.c.text() + ")"
+		return "(" + f.a.text() + ") " + c01Kw("and", "and/"+f.a.kwSig()) + " (" + f.c.text() + ")"
 	case "or":
-		return "(" + f.a.text() + ") or (" + f.c.text() + ")"
+		return "(" + f.a.text() + ") " + c01Kw("or", "or/"+f.a.kwSig()) + " (" + f.c.text() + ")"
 	case "q":
 		return c01JoinQuery(f.a.text(), c01PagingText(f))
 	}
@@ -216,13 +217,13 @@ func (f *c01Filter) text() string {
 func c01PagingText(f *c01Filter) string {
 	s := ""
 	if f.skip != nil {
-		s = "skip " + strconv.FormatInt(*f.skip, 10)
+		s = c01Kw("skip", "paging") + " " + strconv.FormatInt(*f.skip, 10)
 	}
 	if f.limit != nil {
 		if *f.limit == -1 {
-			s = c01JoinQuery(s, "limit none")
+			s = c01JoinQuery(s, c01Kw("limit", "paging")+" "+c01Kw("none", "paging"))
 		} else {
-			s = c01JoinQuery(s, "limit "+strconv.FormatInt(*f.limit, 10))
+			s = c01JoinQuery(s, c01Kw("limit", "paging")+" "+strconv.FormatInt(*f.limit, 10))
 		}
 	}
 	return s
